@@ -7,4 +7,7 @@ func propC01(c *Ctx, r *Report) {
 	r.NotDec = "determinism of SQLite row order, of the graders in the pegnet dependency, of float arithmetic across architectures"
 	r.Trusted = []string{"go/ssa", "module call graph", "sanitiser table (SortTxIDS, sort.Strings on unique keys)", "commutative sink table (AddToBalance, keyed UPDATE/INSERT)"}
 	runOrderTaint(c, r)
+	// process-start dependence of the averaging window (shared with C09)
+	r.rule("C01/window-size", 1, "the incrementally maintained averaging window has the size of a reloaded one")
+	windowSize(c, r, "C01/window-size")
 }
